@@ -80,6 +80,14 @@ MEMBERS = {
     "lambda": "    lam = lambda self, q=2: ('lam', q)\n",
     "super0": "    def who(self):\n        return 'K>' + super().who()\n",
     "super2": "    def who(self):\n        return 'K2>' + super(K, self).who()\n",
+    # zero-argument super() in every statement position of a method that is lowered to its own lambda/comprehension
+    "super0-whiletest": "    def who(self):\n        n = 0\n        while super().who() and n < 1:\n            n += 1\n        return 'Kw%d>' % n + super().who()\n",
+    "super0-whilewalrus": "    def who(self):\n        n = 0\n        while (w := super().who()) and n < 2:\n            n += 1\n            if n == 2:\n                break\n        return 'Kww%d>' % n + w\n",
+    "super0-foriter": "    def who(self):\n        r = 'Kf>'\n        for ch in super().who():\n            if ch == 's':\n                break\n            r += ch\n        else:\n            r += '!'\n        return r\n",
+    "super0-loopbody": "    def who(self):\n        r = 'Kb>'\n        for i in range(2):\n            n = 0\n            while n < 1:\n                n += 1\n                if i:\n                    r += super().who()\n        return r\n",
+    "super0-iftest": "    def who(self):\n        if super().who():\n            return 'Ki>' + super().who()\n        return 'no'\n",
+    "super0-ifexp-walrus": "    def who(self):\n        return 'Ke>' + (b if (b := super().who()) else 'none')\n",
+    "super0-default-arg-call": "    def who(self, *a):\n        return 'Kd>' + '/'.join([super().who()] + [str(x) for x in a])\n",
     "initsub": "    def __init_subclass__(cls, **kw):\n        super().__init_subclass__(**kw)\n        cls.sub_seen = True\n",
     "comp": "    xs = [1, 2]\n    ys = [a * 2 for a in xs]\n    zs = {a: GX for a in xs}\n",
     "gread": "    gx = GX\n    GX = 'shadow'\n    gy = GX\n",
@@ -165,10 +173,11 @@ def _progs(maxkinds):
             continue
         hdr = ", ".join(x for x in (b, m, k) if x)
         for ms in sets:
-            if ("super0" in ms or "super2" in ms) and bn == "none":
+            nsuper = sum(1 for x in ms if x.startswith("super"))
+            if nsuper and bn == "none":
                 continue
-            if "super0" in ms and "super2" in ms:
-                continue
+            if nsuper > 1:
+                continue  # each of them defines who()
             body = "".join(MEMBERS[x] for x in ms)
             for place in ("module", "function", "class", "function-local", "class-local"):
                 if ("closure" in ms or "enclparam" in ms or "enclparamonly" in ms) and not place.startswith("function"):
